@@ -691,9 +691,16 @@ func buildDescriptorsGroup() ([]*target, error) {
 			}
 			return errDigest(err)
 		}))
-	tgs = append(tgs, cborTarget("verify-sgx-constraints", "input = the runtime's TEE constraints blob checked against a good attestation: 1 decoded, 2 ValidateBasic ok, 3 quote verification ran",
+	// (further corpus entries: the legacy unversioned IAS-only form, and version 1 constraints whose policy has no PCS part)
+	scExtra := []seed{{"v1-policy-empty", cbor.Marshal(map[string]any{"v": 1, "enclaves": []any{}, "policy": map[string]any{}, "max_attestation_age": 1200})},
+		{"v1-policy-ias-only", cbor.Marshal(map[string]any{"v": 1, "enclaves": []any{}, "policy": map[string]any{"ias": map[string]any{}}})}}
+	scExtra = append(scExtra, seed{"v0-legacy-ias", readRepo("common/node/testdata/sgx_constraints_v0.bin")})
+	scTarget := cborTarget("verify-sgx-constraints", "input = the runtime's TEE constraints blob, validated for both consensus feature versions and checked against a good attestation: 1 decoded, 2 ValidateBasic ok, 3 quote verification ran",
 		seedsOf[node.SGXConstraints]("v1", cbor.RawMessage(constraints)), 3,
 		func(v *node.SGXConstraints, o *outcome) string {
+			// before and after feature version 26.1 (what a chain that has not run the upgrade yet does)
+			_ = v.ValidateBasic(regParams.TEEFeatures, false)
+			_ = v.ValidateBasic(nil, false)
 			if err := v.ValidateBasic(regParams.TEEFeatures, true); err != nil {
 				return err.Error()
 			}
@@ -704,7 +711,9 @@ func buildDescriptorsGroup() ([]*target, error) {
 				o.depth = 3
 			}
 			return errDigest(err)
-		}))
+		})
+	scTarget.extra = append(scTarget.extra, scExtra...)
+	tgs = append(tgs, scTarget)
 
 	// Entities.
 	signedEnt := cbor.Marshal(must(entity.SignEntity(sgEntity, registry.RegisterEntitySignatureContext, testEntity())))
@@ -734,7 +743,7 @@ func buildDescriptorsGroup() ([]*target, error) {
 				o.depth = 2
 			}
 			res := ""
-			for _, opt := range []registry.VerifyRuntimeOptions{{IsFeatureVersion261: true}, {IsGenesis: true}, {IsSanityCheck: true, IsFeatureVersion261: true}} {
+			for _, opt := range []registry.VerifyRuntimeOptions{{IsFeatureVersion261: true}, {IsGenesis: true}, {IsSanityCheck: true, IsFeatureVersion261: true}, {}} {
 				err := registry.VerifyRuntime(regParams, c16Logger, v, 5, opt)
 				res += errDigest(err) + "|"
 				if err == nil {
